@@ -2,6 +2,7 @@
    (Stack part: list core.  The Condition part is in CondProps below when
    the Condition model is present.)  Property theorems only. *)
 From Stackage Require Import Base Generated StackImpl StackSpec StackSpecLemmas StackRefine StackCorollaries.
+From Stackage Require Import PushTie.
 Open Scope Z_scope.
 
 (* Push (no push policy installed) stores, in order and up to the capacity,
@@ -74,6 +75,21 @@ Print Assumptions c13_any_history.
 
 Definition res_elems {U} (r : res (raw Z * U)) : option (list Z) :=
   match r with Ok (SCfg _ :: t, _) => Some (map (fun s => match s with SVal v => v | SCfg _ => 0%Z end) t) | _ => None end.
+
+
+(* the model's push loop IS the loop of the source: one iteration of
+   stack.genericAppend, regenerated from /repo (the body of its single loop,
+   with canPushNester and isFull regenerated too), is what the model's
+   iteration does - for every option word, capacity, content and value *)
+Theorem c13_generic_push_loop_is_the_source_loop :
+  forall (V : Type) (isstack : V -> bool) (c : scfg) (r : raw V) (x : V) (xs : list V),
+    generic_append V isstack c r (x :: xs) =
+    match g_genericAppend_body (g_canPushNester (positive c c_nnest) (isstack x)) (g_isFull (zlen r) (k_cap c)) with
+    | TCut 0 _ _ => generic_append V isstack c (r ++ [SVal x]) xs
+    | _ => generic_append V isstack c r xs
+    end.
+Proof. exact generic_append_iteration. Qed.
+Print Assumptions c13_generic_push_loop_is_the_source_loop.
 
 Example c13_nonvacuous :
   let isst := fun v : Z => v <? 0 in
